@@ -1,9 +1,11 @@
 """C02 — recognition is a pure function of (query, culture, options, reference date).
 
 Ties between RTV.Model.Conc / RTV.Model.Factory (Lean driver) and the working tree:
-  unit      * precision paths: `_get_digital_value` (decorated) and the CJK / English fraction division (undecorated
-              in the tree as found) evaluated under localcontext(prec = 9, 15, 28) on one thread, against the model's
-              `effectivePrec` + `Dec.div`; the run decides which variant the tree follows for the fraction path
+  unit      * precision paths: `_get_digital_value` and the CJK fraction division evaluated under
+              localcontext(prec = 9, 15, 28) on one thread, against the model's `effectivePrec` + `Dec.div`; the run
+              decides which variant the tree follows for the fraction path (decorated = the code since the fix
+              "number parsing runs under decimal precision 15 on every thread"; undecorated = before it, reported
+              as a regression with the witness 三分之一 on a non-importing thread)
             * controlled interleavings: real threads running the real ModelFactory.get_model on a cache dict whose
               get / __setitem__ wait for a scheduler, so that a seeded schedule of dict operations is executed
               exactly; outputs (constructor key + allocation serial per thread) against `runSched`
@@ -170,7 +172,8 @@ def unit_precision(ctx):
         q = common.driver(['n.dec\tdiv\t%s\t0\t1\t0\t0\t3\t0' % e])[0].split(' ')
         s = common.driver(['n.decstr\t%s\t%s\t%s' % tuple(q)])[0]
         want.append(common.uncps(s))
-    ctx.extra['fraction_path_variant'] = 'undecorated (ambient precision)' if dependent else 'decorated (precision 15)'
+    ctx.extra['fraction_path_variant'] = 'undecorated: ambient precision (the code before the fix: REGRESSION)' \
+        if dependent else 'decorated: precision 15 on every thread (the code since the fix)'
     ctx.extra['fraction_values_under_prec_9_15_28'] = got
     if got != want:
         ctx.report('correspondence', 'fraction-path', 'recognize_number(三分之一) under ambient precision 9/15/28: '
@@ -402,10 +405,14 @@ def correspond(ctx):
     if diffs:
         idx = sorted(diffs)
         rerun = c02worker.run_job({'pool': [pool[i] for i in idx], 'mode': 'prec_thread', 'prec': 15})
+        solo = c02worker.run_job({'pool': [pool[i] for i in idx], 'mode': 'fresh_thread'})
         for j, i in enumerate(idx):
             fixed = rerun['answers'][str(j)][0][1] == canon[i]
+            alone = solo['answers'][str(j)][0][1]      # the tuple alone on a fresh thread, nothing concurrent
             for name, where, val in diffs[i]:
-                if where != 'main' and fixed:
+                # explained by the thread's precision only if the deviation is exactly what the tuple gives alone
+                # on a non-importing thread and precision 15 on such a thread restores the canonical answer
+                if where != 'main' and fixed and val == alone:
                     prec_explained.setdefault(i, []).append((name, where, val))
                 else:
                     other.setdefault(i, []).append((name, where, val))
@@ -419,9 +426,11 @@ def correspond(ctx):
                    failing_input={'tuple': pool[i], 'canonical': canon[i], 'discipline': name, 'where': where,
                                   'observed': val, 'all': [(a, b) for a, b, _ in lst[:6]]}, property_fails=True)
     if prec_explained:
-        i = sorted(prec_explained, key=lambda j: (len(pool[j][1]), pool[j][1]))[0]
+        witness = [j for j in prec_explained if (pool[j][1], pool[j][2]) == ('三分之一', 'zh-cn')]
+        i = witness[0] if witness else sorted(prec_explained, key=lambda j: (len(pool[j][1]), pool[j][1]))[0]
         name, where, val = prec_explained[i][0]
         ctx.report('property', 'decimal-precision-thread-dependent',
+                   'REGRESSION to the repaired defect (number parsing outside @precision(15)): '
                    '%d pool tuples answer differently on a thread other than the importing one (ambient Decimal '
                    'precision %r instead of %r); setting the precision to 15 on that thread restores the canonical '
                    'answer. e.g. %s(%r, %r): main thread %s; %s/%s %s' % (
